@@ -77,7 +77,7 @@ class IPMachine(scanex.ScannerMachine):
             return sp
         if name == 'is_ipv4' and self.fname != 'is_ipv4':
             raise Unsupported('is_ipv4 called from is_ipv6 outside a return statement')
-        raise Unsupported('call of ' + str(name))
+        return super().call(n)           # constant-string membership tests, helpers of the same unit
 
     def at_start_known_cursor(self):
         return False
